@@ -471,6 +471,9 @@ func SameColl(a, b ssa.Value) bool {
 	if !ok1 || !ok2 || ua.Op != token.MUL || ub.Op != token.MUL {
 		return false
 	}
+	if ga, ok := ua.X.(*ssa.Global); ok {
+		return ua.X == ub.X && ga != nil // two loads of one package-level table
+	}
 	fa, ok1 := ua.X.(*ssa.FieldAddr)
 	fb, ok2 := ub.X.(*ssa.FieldAddr)
 	return ok1 && ok2 && fa.X == fb.X && fa.Field == fb.Field
